@@ -28,25 +28,21 @@ Definition ctx_ident (k : bool) (n : Z) (tl : tal) : bool :=
 Definition univ_ident (k : bool) (w : Z) (tl : tal) : bool :=
   Bool.eqb (t_constr tl) k && ((t_cls tl =? 0) && (t_num tl =? w)).
 
-Definition is_choice (t : ty) : bool := match t with TChoice _ => true | _ => false end.
-
 (* the identifier an encoding of a [t] under parameters [p] starts with:
    - a member tagged EXPLICIT, and a tagged CHOICE, sit in a constructed context-tagged wrapper;
    - a member tagged IMPLICIT keeps the form of its type under the context tag;
    - an untagged value carries the universal tag of its type;
    - an untagged CHOICE starts like one of its alternatives;
-   - OBJECT IDENTIFIER and unsupported kinds never decode. *)
+   - OBJECT IDENTIFIER and unsupported kinds have no identifier (and never decode). *)
 Fixpoint expected (t : ty) (p : fparams) (tl : tal) {struct t} : bool :=
   match t with
   | TPtr t' => expected t' p tl
-  | TOid | TUnsupported => false
   | _ =>
     match p_tag p with
     | Some n =>
-      if p_explicit p && negb (is_choice t) then ctx_ident true n tl
+      if p_explicit p || is_choice t then ctx_ident true n tl
       else match t with
            | TWrap t' => expected t' p tl
-           | TChoice _ => ctx_ident true n tl
            | _ => match leaf_ident t p with Some (k, _) => ctx_ident k n tl | None => false end
            end
     | None =>
@@ -94,26 +90,26 @@ Ltac leaf_case :=
   destruct (p_tag p) as [n|] eqn:Et; [destruct (p_explicit p) eqn:Ee|]; cbn [andb negb] in H;
   [ (* explicit wrapper *)
     destruct (wrapper_ok p tl) eqn:W; cbn [negb] in H; [|discriminate H];
-    cbn [expected is_choice negb andb]; rewrite Et, Ee; cbn [andb]; exact (wrapper_ctx p tl n Et W)
+    cbn [expected is_choice]; rewrite Et, Ee; cbn [orb]; exact (wrapper_ctx p tl n Et W)
   | (* implicit tag *)
     unfold dec_body in H; rewrite Hpar in H; cbn [bind] in H; rewrite Er in H;
     destruct (ident_ok _ p tl) eqn:I; cbn [negb] in H; [|discriminate H];
-    cbn [expected is_choice negb andb leaf_ident]; rewrite Et, Ee; cbn [andb];
-    unfold ident_ok in I; cbn [prim_tag] in I; rewrite Et in I; exact I
+    cbn [expected is_choice leaf_ident]; rewrite Et, Ee; cbn [orb];
+    unfold ident_ok, ident_matches in I; cbn [prim_tag] in I; rewrite Et in I; exact I
   | (* untagged *)
     unfold dec_body in H; rewrite Hpar in H; cbn [bind] in H; rewrite Er in H;
     destruct (ident_ok _ p tl) eqn:I; cbn [negb] in H; [|discriminate H];
     cbn [expected leaf_ident]; rewrite Et;
-    unfold ident_ok in I; cbn [prim_tag] in I; rewrite Et in I; exact I ].
+    unfold ident_ok, ident_matches in I; cbn [prim_tag] in I; rewrite Et in I; exact I ].
 
 Lemma pick_expected alts bs tl v : forall l k,
   Forall (fun a => accepts_expected (snd a)) l ->
   forall off, parse_tl bs = Ok (tl, off) ->
-  choice_pick dec alts bs (t_num tl) l k = Ok v -> any_alt tl l = true.
+  choice_pick dec alts bs tl l k = Ok v -> any_alt tl l = true.
 Proof.
   induction l as [|[ap at'] r IH]; intros k HF off Hpar H; cbn [choice_pick] in H; [discriminate H|].
   cbn [any_alt]. inversion HF as [|a0 r0 Ha Hr]; subst.
-  destruct (tag_matches ap (t_num tl)).
+  destruct (starts at' ap tl).
   - destruct (dec at' ap bs) as [w| | |] eqn:D; cbn [bind] in H; try discriminate H.
     cbn [snd] in Ha. rewrite (Ha ap bs w tl off D Hpar). reflexivity.
   - rewrite (IH (S k) Hr off Hpar H). apply orb_true_r.
@@ -146,11 +142,11 @@ Proof.
     intros p bs v tl off H Hpar. open_dec H Hpar Er.
     destruct (p_tag p) as [n|] eqn:Et; [destruct (p_explicit p) eqn:Ee|]; cbn [andb negb] in H.
     + destruct (wrapper_ok p tl) eqn:W; cbn [negb] in H; [|discriminate H].
-      cbn [expected is_choice negb andb]. rewrite Et, Ee. cbn [andb]. exact (wrapper_ctx p tl n Et W).
+      cbn [expected is_choice]. rewrite Et, Ee. cbn [orb]. exact (wrapper_ctx p tl n Et W).
     + unfold dec_body in H. rewrite Hpar in H. cbn [bind] in H. rewrite Er in H.
       cbn [ident_ok prim_tag negb] in H.
       destruct (dec t p bs) as [w| | |] eqn:D; cbn [bind] in H; try discriminate H.
-      cbn [expected is_choice negb andb]. rewrite Et, Ee. cbn [andb]. exact (IHt p bs w tl off D Hpar).
+      cbn [expected is_choice]. rewrite Et, Ee. cbn [orb]. exact (IHt p bs w tl off D Hpar).
     + unfold dec_body in H. rewrite Hpar in H. cbn [bind] in H. rewrite Er in H.
       cbn [ident_ok prim_tag negb] in H.
       destruct (dec t p bs) as [w| | |] eqn:D; cbn [bind] in H; try discriminate H.
@@ -161,8 +157,8 @@ Proof.
     unfold dec_body in Hd. rewrite Hpar in Hd. cbn [bind] in Hd. rewrite Er in Hd.
     destruct (ident_ok (TChoice l) p tl) eqn:I; cbn [negb] in Hd; [|discriminate Hd].
     destruct (p_tag p) as [n|] eqn:Et.
-    + cbn [expected is_choice negb]. rewrite Et. rewrite andb_false_r.
-      unfold ident_ok in I. cbn [prim_tag] in I. rewrite Et in I. exact I.
+    + cbn [expected is_choice]. rewrite Et. rewrite orb_true_r.
+      unfold ident_ok, ident_matches in I. cbn [prim_tag] in I. rewrite Et in I. exact I.
     + cbn [expected]. rewrite Et. fold (any_alt tl).
       destruct (p_open p); [discriminate Hd|]. cbn [bind] in Hd.
       rewrite slice_from_zero in Hd. cbn [bind] in Hd.
@@ -178,6 +174,20 @@ Proof.
     + destruct (negb (wrapper_ok p tl)); [discriminate H|].
       destruct (slice_from bs off); cbn [bind] in H; try discriminate H. exact (B _ _ H).
     + exact (B _ _ H).
+Qed.
+
+(* the decoder's own member matching ([starts], the model of startsWith) is this specification *)
+Lemma starts_expected : forall t p tl, starts t p tl = expected t p tl.
+Proof.
+  induction t using ty_ind'; intros p tl;
+    try (cbn [starts expected is_choice prim_tag leaf_ident]; unfold ident_matches, ctx_ident, univ_ident, seq_tag;
+         destruct (p_tag p); destruct (p_explicit p); reflexivity).
+  - cbn [starts expected]. apply IHt.
+  - cbn [starts expected is_choice]. unfold ident_matches, ctx_ident.
+    destruct (p_tag p); destruct (p_explicit p); cbn [andb orb]; try reflexivity; apply IHt.
+  - cbn [starts expected is_choice]. unfold ident_matches, ctx_ident.
+    destruct (p_tag p); [rewrite orb_true_r; reflexivity|]. cbn [andb].
+    induction H as [|[ap at'] r Ha Hr IHr]; [reflexivity|]. cbn [snd] in Ha. rewrite Ha, IHr. reflexivity.
 Qed.
 
 (* contrapositive, the form the property states: wrongly-typed input is an error
